@@ -23,6 +23,10 @@ def norm(v):
         return ('N',)
     if isinstance(v, (bool, np.bool_)):
         return ('b', bool(v))
+    if isinstance(v, np.timedelta64):   # NB: timedelta64 is a subclass of np.signedinteger
+        if np.isnat(v):
+            return ('m', 'NaT')
+        return ('m', str(v))
     if isinstance(v, (int, np.integer)):
         return ('i', int(v))
     if isinstance(v, (float, np.floating)):
